@@ -961,25 +961,26 @@ func (vx *Vaxis) render()
   cut "if next.sixel" nextwf: StyleWF(next.Style)
   cut "if cursor.Foreground != next.Foreground" C01_last: vx.screenLast.buf[row][col] == next
   cut "if cursor.Foreground != next.Foreground" forget pen s0: PenOK(vx, cursor) && vx.tw != nil && StyleWF(cursor) && StyleWF(next.Style) && At(row, col)
-  -- (inside the foreground section, where the parameters of the colour to show are known: they determine it)
+  -- (inside the foreground section, where the parameters of the colour to show are known: they determine it;
+  -- operand(0) is the slice the switch statement takes the length of, whatever the code calls it)
   cut "switch len(" after "fg := next.Foreground" forget pen s0b: PenOK(vx, cursor) && vx.tw != nil && StyleWF(cursor) && StyleWF(next.Style) && At(row, col)
-       && cursor.Foreground != next.Foreground && (len(ps) == 0 || len(ps) == 1 || len(ps) == 3)
-       && (len(ps) == 0 ==> ShownCol(vx, next.Foreground) == 0)
-       && (len(ps) == 1 ==> ShownCol(vx, next.Foreground) == ps[0] + 16777216)
-       && (len(ps) == 3 ==> ShownCol(vx, next.Foreground) == ps[0] * 65536 + ps[1] * 256 + ps[2] + 33554432)
+       && cursor.Foreground != next.Foreground && (len(operand(0)) == 0 || len(operand(0)) == 1 || len(operand(0)) == 3)
+       && (len(operand(0)) == 0 ==> ShownCol(vx, next.Foreground) == 0)
+       && (len(operand(0)) == 1 ==> ShownCol(vx, next.Foreground) == operand(0)[0] + 16777216)
+       && (len(operand(0)) == 3 ==> ShownCol(vx, next.Foreground) == operand(0)[0] * 65536 + operand(0)[1] * 256 + operand(0)[2] + 33554432)
   cut "if cursor.Background != next.Background" forget pen s1: PenIs(vx, next.Foreground, cursor.Background, cursor.UnderlineColor, cursor.UnderlineStyle, cursor.Attribute, cursor.Hyperlink) && vx.tw != nil && StyleWF(cursor) && StyleWF(next.Style) && At(row, col)
   cut "switch len(" after "bg := next.Background" forget pen s1b: PenIs(vx, next.Foreground, cursor.Background, cursor.UnderlineColor, cursor.UnderlineStyle, cursor.Attribute, cursor.Hyperlink) && vx.tw != nil && StyleWF(cursor) && StyleWF(next.Style) && At(row, col)
-       && cursor.Background != next.Background && (len(ps) == 0 || len(ps) == 1 || len(ps) == 3)
-       && (len(ps) == 0 ==> ShownCol(vx, next.Background) == 0)
-       && (len(ps) == 1 ==> ShownCol(vx, next.Background) == ps[0] + 16777216)
-       && (len(ps) == 3 ==> ShownCol(vx, next.Background) == ps[0] * 65536 + ps[1] * 256 + ps[2] + 33554432)
+       && cursor.Background != next.Background && (len(operand(0)) == 0 || len(operand(0)) == 1 || len(operand(0)) == 3)
+       && (len(operand(0)) == 0 ==> ShownCol(vx, next.Background) == 0)
+       && (len(operand(0)) == 1 ==> ShownCol(vx, next.Background) == operand(0)[0] + 16777216)
+       && (len(operand(0)) == 3 ==> ShownCol(vx, next.Background) == operand(0)[0] * 65536 + operand(0)[1] * 256 + operand(0)[2] + 33554432)
   cut "if vx.caps.styledUnderlines {" forget pen s2: PenIs(vx, next.Foreground, next.Background, cursor.UnderlineColor, cursor.UnderlineStyle, cursor.Attribute, cursor.Hyperlink) && vx.tw != nil && StyleWF(cursor) && StyleWF(next.Style) && At(row, col)
   -- (inside the underline-colour section, where the parameters of the colour to show are known: they determine it)
   cut "switch len(" after "ul := next.UnderlineColor" forget pen s2b: PenIs(vx, next.Foreground, next.Background, cursor.UnderlineColor, cursor.UnderlineStyle, cursor.Attribute, cursor.Hyperlink) && vx.tw != nil && StyleWF(cursor) && StyleWF(next.Style) && At(row, col)
-       && vx.caps.styledUnderlines && cursor.UnderlineColor != next.UnderlineColor && (len(ps) == 0 || len(ps) == 1 || len(ps) == 3)
-       && (len(ps) == 0 ==> ShownCol(vx, next.UnderlineColor) == 0)
-       && (len(ps) == 1 ==> ShownCol(vx, next.UnderlineColor) == ps[0] + 16777216)
-       && (len(ps) == 3 ==> ShownCol(vx, next.UnderlineColor) == ps[0] * 65536 + ps[1] * 256 + ps[2] + 33554432)
+       && vx.caps.styledUnderlines && cursor.UnderlineColor != next.UnderlineColor && (len(operand(0)) == 0 || len(operand(0)) == 1 || len(operand(0)) == 3)
+       && (len(operand(0)) == 0 ==> ShownCol(vx, next.UnderlineColor) == 0)
+       && (len(operand(0)) == 1 ==> ShownCol(vx, next.UnderlineColor) == operand(0)[0] + 16777216)
+       && (len(operand(0)) == 3 ==> ShownCol(vx, next.UnderlineColor) == operand(0)[0] * 65536 + operand(0)[1] * 256 + operand(0)[2] + 33554432)
   cut "if cursor.Attribute != next.Attribute" forget pen s3: PenIs(vx, next.Foreground, next.Background, next.UnderlineColor, cursor.UnderlineStyle, cursor.Attribute, cursor.Hyperlink) && vx.tw != nil && StyleWF(cursor) && StyleWF(next.Style) && At(row, col)
   cut "if cursor.UnderlineStyle != next.UnderlineStyle" forget pen s4: PenIs(vx, next.Foreground, next.Background, next.UnderlineColor, cursor.UnderlineStyle, next.Attribute, cursor.Hyperlink) && vx.tw != nil && StyleWF(cursor) && StyleWF(next.Style) && At(row, col)
   cut "if cursor.Hyperlink != next.Hyperlink" forget pen s5: PenIs(vx, next.Foreground, next.Background, next.UnderlineColor, next.UnderlineStyle, next.Attribute, cursor.Hyperlink) && vx.tw != nil && StyleWF(cursor) && StyleWF(next.Style) && At(row, col)
